@@ -138,6 +138,24 @@ func cmdFor(rt *rapid.T, label, kind string) string {
 type gobj struct {
 	spatial  bool
 	lat, lon float64
+	kind     string
+	z        float64
+	fields   map[string]int // current non-zero fields
+}
+
+func mergeFields(old map[string]int, fs []Field) map[string]int {
+	out := map[string]int{}
+	for k, v := range old {
+		out[k] = v
+	}
+	for _, f := range fs {
+		if f.Val == 0 {
+			delete(out, f.Name)
+		} else {
+			out[f.Name] = f.Val
+		}
+	}
+	return out
 }
 
 type generator struct {
@@ -237,11 +255,19 @@ func (g *generator) drawPosition(key int, old *gobj) (lat, lon float64, ok bool)
 func (g *generator) add(s Step) {
 	g.cs.Steps = append(g.cs.Steps, s)
 	objs := g.objs[s.Key]
+	var prev map[string]int
+	if o := objs[s.ID]; o != nil {
+		prev = o.fields
+	}
 	switch s.Op {
 	case "set":
-		objs[s.ID] = &gobj{spatial: true, lat: s.Lat, lon: s.Lon}
+		objs[s.ID] = &gobj{spatial: true, lat: s.Lat, lon: s.Lon, kind: s.Kind, z: s.Z, fields: mergeFields(prev, s.Fields)}
 	case "setstr":
-		objs[s.ID] = &gobj{}
+		objs[s.ID] = &gobj{fields: mergeFields(prev, s.Fields)}
+	case "fset":
+		if o := objs[s.ID]; o != nil {
+			o.fields = mergeFields(prev, s.Fields)
+		}
 	case "setex", "del":
 		delete(objs, s.ID)
 	case "pdel":
@@ -417,6 +443,23 @@ func genCase(rt *rapid.T, detectIdx int, p genParams) Case {
 		}
 		id := pick(rt, "id", ids)
 		old := g.objs[key][id]
+		if old != nil && old.spatial && pct(rt, "unchanged") < 9 {
+			// re-SET of the object exactly as it is: a stationary object must
+			// still be announced as inside / outside
+			s := Step{Op: "set", Key: key, ID: id, Kind: old.kind, Lat: old.lat, Lon: old.lon, Z: old.z, Unchanged: true}
+			if rapid.Bool().Draw(rt, "unchanged-repeat-fields") {
+				var names []string
+				for n := range old.fields {
+					names = append(names, n)
+				}
+				sort.Strings(names)
+				for _, n := range names {
+					s.Fields = append(s.Fields, Field{n, old.fields[n]})
+				}
+			}
+			g.add(s)
+			continue
+		}
 		op := pct(rt, "op")
 		switch {
 		case op < 62 || (op < 80 && (old == nil)):
@@ -812,6 +855,12 @@ func runCase(t failer, c *ev.Collector, cs Case) (info caseInfo) {
 			}
 		}
 		info.labels["op:"+s.Op] = true
+		if s.Unchanged {
+			info.labels["re-set-unchanged"] = true
+			if len(s.Fields) == 0 {
+				info.labels["re-set-unchanged:fields-carried-over"] = true
+			}
+		}
 		switch s.Op {
 		case "set", "setex", "setstr":
 			old := objs[s.ID]
@@ -1232,7 +1281,7 @@ func TestC05_Matrix(t *testing.T) {
 	}
 	c := ev.New("C05", "matrix", "exploration")
 	t.Cleanup(c.Flush)
-	c.Rule("all 32 DETECT choices x 6 area kinds x {no COMMANDS, each single command}: fixed script new-out, cross, out-in, in-in, fset-in, in-out, fset-out, out-out, new-in(second id), del-in, del-out, in, drop on a lone fence observed three ways; every transition kind occurs in every case, so every case is non-trivial; distinct by (DETECT, area, COMMANDS)")
+	c.Rule("all 32 DETECT choices x 6 area kinds x {no COMMANDS, each single command}: fixed script new-out, cross, out-in, in-in, unchanged re-SET, fset-in, unchanged re-SET without fields, in-out, fset-out, out-out, two unchanged re-SETs outside, new-in(second id), del-in, del-out, in, drop on a lone fence observed three ways; every transition kind occurs in every case, so every case is non-trivial; distinct by (DETECT, area, COMMANDS)")
 	c.Exhaustive(true)
 	accepts := [][]string{nil, {"set"}, {"fset"}, {"del"}, {"drop"}}
 	for d := 0; d < 32; d++ {
@@ -1282,14 +1331,26 @@ func matrixCase(d, ki int, kind string, acc []string) Case {
 	f := FenceSpec{Cmd: cmd, Area: a, Detect: detectSubset(d), Commands: acc, Obs: "all3"}
 	fr := a.frame()
 	q := 0
+	var last Step
 	at := func(id string, u, v float64) Step {
 		la, lo := fr.denorm(u, v)
 		q++
-		return Step{Op: "set", Key: 0, ID: id, Kind: "point", Lat: round7(la), Lon: round7(lo), Fields: []Field{{"q", q}}}
+		last = Step{Op: "set", Key: 0, ID: id, Kind: "point", Lat: round7(la), Lon: round7(lo), Fields: []Field{{"q", q}}}
+		return last
 	}
 	fs := func(id string) Step {
 		q++
 		return Step{Op: "fset", Key: 0, ID: id, Fields: []Field{{"q", q}}}
+	}
+	// same: the object of the last SET once more, unchanged (q = its current value, or no FIELD at all)
+	same := func(carry bool) Step {
+		s := last
+		s.Unchanged = true
+		s.Fields = []Field{{"q", q}}
+		if carry {
+			s.Fields = nil
+		}
+		return s
 	}
 	cs := Case{Fences: []FenceSpec{f}}
 	cs.Steps = []Step{
@@ -1297,11 +1358,15 @@ func matrixCase(d, ki int, kind string, acc []string) Case {
 		at("a1", 3, -0.1),   // cross
 		at("a1", 0.1, 0.2),  // out-in
 		at("a1", -0.2, 0.1), // in-in
+		same(false),         // exact same command again: inside
 		fs("a1"),            // fset-in
+		same(true),          // same position, fields carried over, after FSET: inside
 		at("a1", 0.3, 2.5),  // in-out
 		fs("a1"),            // fset-out
 		at("a1", 2.5, 2.5),  // out-out
-		at("a2", 0, 0),      // new-in
+		same(false),         // stationary outside: outside
+		same(true),
+		at("a2", 0, 0), // new-in
 		{Op: "del", Key: 0, ID: "a2"},
 		{Op: "del", Key: 0, ID: "a1"},
 		at("a1", 0.1, -0.1),
